@@ -530,6 +530,7 @@ func TestVerifC13(t *testing.T) {
 	c13Summaries(c, 70)
 	c13Compare(c, mc.Pick(c, 5, 6))
 	c13Render(c)
+	c13Huge(c)
 	c13Histories(c, mc.Pick(c, 3, 4))
 	mc.FirstCalls(c, c13Calls, "TestVerifC13Fresh", "VERIF_C13_CALLS")
 	if code := c.Finish(); code != 0 {
